@@ -127,7 +127,11 @@ class AsyncWorker(base.Worker):
             # If the original exception was a socket.error we delegate
             # handling it to the caller (where handle() might ignore it)
             util.reraise(*sys.exc_info())
-        except Exception:
+        except BaseException:
+            # also SystemExit (raised by the handlers of the worker-timeout
+            # and quick-shutdown signals) and the greenlet Timeout / exit
+            # exceptions: once the head is on the wire, no error page may
+            # be written into the response in progress
             if resp and resp.headers_sent:
                 # If the requests have already been sent, we should close the
                 # connection to indicate the error.
